@@ -1,2 +1,3 @@
 import Proofs.C05
 import Proofs.C17
+import Proofs.C18
